@@ -69,6 +69,14 @@ class Lam(object):
         self.env = env
 
 
+class FnVal(object):
+    """a repository function as a value (with the environment of its definition for closures)"""
+
+    def __init__(self, fi, env):
+        self.fi = fi
+        self.env = env
+
+
 STR_METHODS = {
     "format", "replace", "join", "startswith", "endswith", "split", "rsplit", "strip", "lstrip", "rstrip", "lower",
     "upper", "casefold", "partition", "rpartition", "splitlines", "count", "find", "isdecimal", "isdigit", "title",
@@ -325,7 +333,9 @@ class Folder(object):
                 return getattr(ast, b[1][4:])
             return UNKNOWN
         if b[0] == "builtin":
-            return {"True": True, "False": False, "None": None}.get(name, UNKNOWN)
+            return {"True": True, "False": False, "None": None, "dict": dict}.get(name, UNKNOWN)
+        if b[0] == "func":
+            return FnVal(b[1], dict(getattr(self, "_cur_env", {}) or {}))
         return UNKNOWN
 
     def _call(self, e, env, at):
@@ -353,13 +363,24 @@ class Folder(object):
                         return U
                 return U
         # calling a folded lambda / callable value
-        if isinstance(f, (ast.Lambda, ast.Call, ast.Subscript)) or (isinstance(f, ast.Name) and f.id in env):
+        if isinstance(f, (ast.Lambda, ast.Call, ast.Subscript)) or (isinstance(f, ast.Name) and f.id in env and isinstance(env[f.id], (Lam, FnVal, NTClass))):
             fv = self._e(f, env, at)
             if isinstance(fv, Lam):
                 args = [self._e(a, env, at) for a in e.args]
                 return self._apply_lambda(fv, args, at)
             if isinstance(fv, NTClass):
                 return self._mk_nt(fv, e, env, at)
+            if fv is dict and not e.args and not e.keywords:
+                return {}
+            if isinstance(fv, FnVal):
+                args = [self._e(a, env, at) for a in e.args]
+                kw = {k.arg: self._e(k.value, env, at) for k in e.keywords if k.arg}
+                try:
+                    return self._apply_fn(fv.fi, args, kw, closure=fv.env)
+                except _Raise as r:
+                    if r.name in ("IndexError", "KeyError"):
+                        raise
+                    return U
             return U
         tgt = self.prog.resolve_expr_fn(f, at)
         for t in tgt:
@@ -417,6 +438,13 @@ class Folder(object):
 
     def _mk_nt(self, cls, e, env, at):
         vals = [self._e(a, env, at) for a in e.args]
+        kw = {k.arg: self._e(k.value, env, at) for k in e.keywords if k.arg}
+        if any(k.arg is None for k in e.keywords):
+            return UNKNOWN
+        for f in cls.fields[len(vals):]:
+            if f not in kw:
+                return UNKNOWN
+            vals.append(kw[f])
         if any(v is UNKNOWN for v in vals) or len(vals) != len(cls.fields):
             return UNKNOWN
         return NT(cls.fields, vals)
@@ -431,7 +459,7 @@ class Folder(object):
         return self._e(lam.node.body, env, lam.node)
 
     # repository pure helpers ------------------------------------------------
-    def _apply_fn(self, fi, args, kw):
+    def _apply_fn(self, fi, args, kw, closure=None):
         node = fi.node
         a = node.args
         if a.vararg or a.kwarg or a.kwonlyargs or a.posonlyargs:
@@ -439,7 +467,8 @@ class Folder(object):
         names = [x.arg for x in a.args]
         if len(args) > len(names):
             return UNKNOWN
-        env = dict(zip(names, args))
+        env = dict(closure or {})
+        env.update(zip(names, args))
         defaults = dict(zip(names[len(names) - len(a.defaults) :], a.defaults))
         for n in names[len(args) :]:
             if n in kw:
@@ -487,7 +516,7 @@ class Folder(object):
                             break
                     else:
                         raise
-            elif isinstance(s, ast.Pass):
+            elif isinstance(s, (ast.Pass, ast.FunctionDef)):
                 continue
             else:
                 raise _Return(UNKNOWN)
